@@ -41,6 +41,22 @@ theorem skip_never_raises (s : List (Step D)) :
 example : decode .skip [Step.collect 7, .flush, .result "d", .direct 9 true] = .ok (.one "d", []) := by
   decide
 
+/-- what `iter_decode(validation='skip')` yields: every result, and of the errors only those that the
+    generator itself yields (missing element); nothing that went through `context.errors`. -/
+theorem skip_yields_spec (s : List (Step D)) :
+    errsOf (iterDecode .skip s).items = skipDirects s ∧ dataOf (iterDecode .skip s).items = results s := by
+  refine ⟨?_, gen_skip_data s []⟩
+  unfold iterDecode
+  induction s with
+  | nil => rfl
+  | cons st k ih =>
+    cases st with
+    | direct e sk => cases sk <;> simp [gen, skipDirects, errsOf, ih]
+    | _ => simp [gen, skipDirects, errsOf, ih]
+
+example : (iterDecode .skip [Step.collect 1, .flush, .direct 2 true, .direct 3 false, .result "d"]).items
+    = [.err 2, .data "d"] := by decide
+
 /-! ### validation API -/
 
 /-- `iter_errors` yields exactly the error events of the run, in call order. -/
